@@ -53,6 +53,7 @@ type Obligation struct {
 	Output  string
 	File    string
 	Agree   int
+	AltSMT  string // covers: the state before the step; if that is unsat too the path is dead, not vacuous
 }
 
 // frame is one function activation (the verified function or an inlined one).
@@ -103,6 +104,8 @@ type FuncVerifier struct {
 	curCall      *ast.CallExpr
 	pick         func(ast.Expr) ast.Expr
 	clausePick   func(ast.Expr) ast.Expr
+	pendingFresh []Term
+	noAllocAssume bool
 	heapSorts    map[string]*Sort // heap name -> reference sort
 	pureUsed, inlined, trustedUsed, contractUsed map[string]bool
 	allocBudget  func(st *State) Term
@@ -257,8 +260,19 @@ func (fv *FuncVerifier) heap(st *State, ref *Sort) Term {
 	n := name + "!0"
 	fv.u.declare("heap:"+n, fmt.Sprintf("(declare-const %s %s)", n, hs.Name))
 	h := Term{n, hs}
+	fv.nilMapAxiom(name, h)
 	fv.initHeaps[name] = h
 	return h
+}
+
+// nilMapAxiom: a nil map has no entries (reads of heap slot 0 see an empty map).
+func (fv *FuncVerifier) nilMapAxiom(heapName string, h Term) {
+	if !strings.HasPrefix(heapName, "M_") || h.Sort == nil || h.Sort.Elem == nil || len(h.Sort.Elem.Fields) < 3 {
+		return
+	}
+	cs := h.Sort.Elem
+	fv.u.decls = append(fv.u.decls, fmt.Sprintf("(assert (and (= (%s (select %s 0)) ((as const %s) false)) (= (%s (select %s 0)) 0)))",
+		cs.Fields[0].Accessor, h.S, cs.Fields[0].Sort.Name, cs.Fields[2].Accessor, h.S))
 }
 
 func (fv *FuncVerifier) setHeap(st *State, ref *Sort, h Term) {
@@ -298,11 +312,12 @@ func (fv *FuncVerifier) oblige(st *State, kind, label string, goal Term, p token
 }
 
 // cover records a satisfiability check (vacuity guard): pc /\ cond must be sat.
-func (fv *FuncVerifier) cover(st *State, label string, cond Term, human string) {
+func (fv *FuncVerifier) cover(st *State, label string, cond Term, human string) *Obligation {
 	name := fmt.Sprintf("%s#cover:%s", fv.name, label)
 	o := &Obligation{Name: name, Kind: "cover", Func: fv.name, Goal: human, Expect: "sat"}
 	o.SMT = fv.buildQuery(st, cond)
 	fv.obls = append(fv.obls, o)
+	return o
 }
 
 func (fv *FuncVerifier) buildQuery(st *State, extra Term) string {
@@ -1212,6 +1227,7 @@ func (fv *FuncVerifier) havocTouched(head, pre *State, touched []string, cfg *lo
 		}
 		cur := fv.heap(pre, ref)
 		nh := fv.u.freshConst(k, cur.Sort)
+		fv.nilMapAxiom(k, nh)
 		if hasMod {
 			fv.assumeFrame(head, fp[k], ref, cur, nh, fv.allocSet(pre, ref).S)
 		} else {
@@ -1269,6 +1285,7 @@ func (fv *FuncVerifier) havocAllHeaps(st *State) {
 			cur = fv.initHeaps[k]
 		}
 		st.heaps[k] = fv.u.freshConst(k, cur.Sort)
+		fv.nilMapAxiom(k, st.heaps[k])
 	}
 	fv.u.note("heap-writing loop or modifies *: all heaps havocked (invariants/ensures must restate needed heap facts)")
 }
